@@ -138,7 +138,7 @@ Theorem C06_translated_tables :
   forallb (fun s => Bool.eqb (mem_scope s restart_stmt_scopes) (doc_allows s ARestartStmt) &&
                     Bool.eqb (mem_scope s error_stmt_scopes) (doc_allows s AErrorStmt)) all_scopes = true /\
   forallb (fun s => forallb (fun r =>
-     Bool.eqb (mem_rstate r (lint_expects s)) (doc_allows s (ARet r))) all_rstates) all_scopes = true.
+     Bool.eqb (mem_rstate r (lint_expects s)) (doc_allows s (ARet r) && negb (linter_omits s r))) all_rstates) all_scopes = true.
 Proof. exact (conj (proj1 restart_guards) (conj (proj2 restart_guards) (conj stmt_scopes_eq_doc linter_expects_eq_doc))). Qed.
 
 Print Assumptions C06_sm_path.
